@@ -109,6 +109,15 @@ func genCase(t *rapid.T) Case {
 		c.Cut = rapid.IntRange(4000, 2*c.TxBytes+2000).Draw(t, "tornCut")
 		c.Second = rapid.IntRange(0, 30).Draw(t, "tornSecond")
 	}
+	if rapid.IntRange(0, 7).Draw(t, "fullPartProfile") == 0 {
+		// blocks of the size the default configuration is made for: parts of up to 64 KiB
+		// (block_part_size default), whose WAL records are longer than 64 KiB
+		c.TxBytes = rapid.SampledFrom([]int{40000, 70000, 150000}).Draw(t, "fullPartTx")
+		c.PartSz = 65536
+		if c.Cut >= 0 {
+			c.Cut = rapid.IntRange(0, 140000).Draw(t, "fullPartCut")
+		}
+	}
 	return c
 }
 
@@ -162,6 +171,9 @@ func runCase(c Case, x *h.Ctx) {
 			n.Pool.Push(tx)
 		}
 		x.Label("large-wal-records")
+		if c.TxBytes >= 33000 && (c.PartSz == 0 || c.PartSz >= 65536) {
+			x.Label("wal-records-longer-than-64KiB")
+		}
 	}
 	d := sim.NewDriver(net)
 	d.LogOn = x.Replaying
